@@ -73,6 +73,7 @@ libs: $(foreach v,$(VARIANTS),$(B)/$(v)/libzvbi.a)
 # default variant is asan; override per harness with VARIANT_<id>.
 # extra per harness flags: HFLAGS_<id>, extra link inputs: HLINK_<id>,
 # extra prerequisites: HDEPS_<id>.
+PROXY_WRAP := -Wl,--wrap=select,--wrap=accept,--wrap=send,--wrap=time,--wrap=alarm
 -include harness/*.mk
 
 hv = $(or $(VARIANT_$(1)),asan)
